@@ -1,6 +1,7 @@
 package main
 
 import (
+	"encoding/json"
 	"fmt"
 	"time"
 
@@ -113,68 +114,184 @@ func mutate(r *common.Rand, s []byte) []byte {
 	return out
 }
 
-// badContexts: argument combinations validate() must turn into errors (Go only; the model starts
-// after validation).
+// optsSpec: Engine.Execute's arguments as data (the Coq twin is model/ExecOpts.v's exec_opts).
+type inSpec struct {
+	Unlock *[]byte `json:"unlock"`
+	Seq    uint32  `json:"seq"`
+}
+type txSpec struct {
+	Ins     []inSpec `json:"ins"`
+	Lock    uint32   `json:"lock"`
+	Version uint32   `json:"version"`
+}
+type prevSpec struct {
+	Lock *[]byte `json:"lock"`
+}
+type optsSpec struct {
+	Lock    *[]byte   `json:"lock"`
+	Unlock  *[]byte   `json:"unlock"`
+	Prev    *prevSpec `json:"prev"`
+	Tx      *txSpec   `json:"tx"`
+	Idx     int       `json:"idx"`
+	Flags   uint32    `json:"flags"`
+	NoWithTx bool     `json:"no_with_tx"`
+	NoWithScripts bool `json:"no_with_scripts"`
+}
+
+func scr(b *[]byte) *bscript.Script {
+	if b == nil {
+		return nil
+	}
+	return bscript.NewFromBytes(append([]byte{}, (*b)...))
+}
+
+func (o *optsSpec) build(dbg interpreter.Debugger) []interpreter.ExecutionOptionFunc {
+	var opts []interpreter.ExecutionOptionFunc
+	if !o.NoWithTx {
+		var tx *bt.Tx
+		if o.Tx != nil {
+			tx = bt.NewTx()
+			tx.Version, tx.LockTime = o.Tx.Version, o.Tx.Lock
+			for _, i := range o.Tx.Ins {
+				in := &bt.Input{SequenceNumber: i.Seq, UnlockingScript: scr(i.Unlock)}
+				_ = in.PreviousTxIDAdd(make([]byte, 32))
+				tx.Inputs = append(tx.Inputs, in)
+			}
+			tx.Outputs = append(tx.Outputs, &bt.Output{Satoshis: 1, LockingScript: bscript.NewFromBytes([]byte{0x51})})
+		}
+		var prev *bt.Output
+		if o.Prev != nil {
+			prev = &bt.Output{Satoshis: 5, LockingScript: scr(o.Prev.Lock)}
+		}
+		opts = append(opts, interpreter.WithTx(tx, o.Idx, prev))
+	}
+	if !o.NoWithScripts {
+		opts = append(opts, interpreter.WithScripts(scr(o.Lock), scr(o.Unlock)))
+	}
+	opts = append(opts, interpreter.WithFlags(scriptflag.Flag(o.Flags)))
+	if dbg != nil {
+		opts = append(opts, interpreter.WithDebugger(dbg))
+	}
+	return opts
+}
+
+func coqOptBytes(b *[]byte) string {
+	if b == nil {
+		return "None"
+	}
+	return "(Some " + common.CoqBytes(*b) + ")"
+}
+
+func (o *optsSpec) coq(res interpgen.Result) string {
+	prev, tx := "None", "None"
+	if o.Prev != nil && !o.NoWithTx {
+		prev = "(Some " + coqOptBytes(o.Prev.Lock) + ")"
+	}
+	idx := o.Idx
+	if o.NoWithTx {
+		idx = 0
+	}
+	if o.Tx != nil && !o.NoWithTx {
+		ins := "["
+		for k, i := range o.Tx.Ins {
+			if k > 0 {
+				ins += "; "
+			}
+			ins += fmt.Sprintf("mkOIn %s %d%%Z", coqOptBytes(i.Unlock), i.Seq)
+		}
+		tx = fmt.Sprintf("(Some (mkOTx %s] %d%%Z %d%%Z))", ins, o.Tx.Lock, o.Tx.Version)
+	}
+	lock, unlock := coqOptBytes(o.Lock), coqOptBytes(o.Unlock)
+	if o.NoWithScripts {
+		lock, unlock = "None", "None"
+	}
+	obs := map[string]string{"ok": "ObsOk", "err": "ObsErr", "panic": "ObsPanic"}[res.Obs]
+	return fmt.Sprintf("KOpts (mkOpts %s %s %s %s (%d)%%Z %d) %s %d %s", lock, unlock, prev, tx, idx, o.Flags, obs, res.Steps, common.CoqStr(res.Hash))
+}
+
+// badContexts: argument combinations of Engine.Execute — nil / empty / mismatching scripts, nil
+// transaction, transactions with 0..3 inputs with and without their own unlocking script, nil previous
+// output or one without a locking script, and input indices from MinInt64 to MaxInt64. Each runs on the
+// implementation under recover() with and without a debugger and on the model (validate + apply in
+// model/ExecOpts.v, then the interpreter model).
 func badContexts(r *common.Rand) {
-	lock, unlock := bscript.NewFromBytes([]byte{0x51}), bscript.NewFromBytes([]byte{0x51})
-	mk := func(nin int) *bt.Tx {
-		tx := bt.NewTx()
-		for i := 0; i < nin; i++ {
-			in := &bt.Input{SequenceNumber: 0xffffffff}
-			_ = in.PreviousTxIDAdd(make([]byte, 32))
-			if i%2 == 0 {
-				in.UnlockingScript = unlock
-			}
-			tx.Inputs = append(tx.Inputs, in)
-		}
-		tx.Outputs = append(tx.Outputs, &bt.Output{Satoshis: 1, LockingScript: lock})
-		return tx
+	bs := func(b ...byte) *[]byte { x := append([]byte{}, b...); return &x }
+	pool := []*[]byte{nil, bs(), bs(0x51), bs(0x00), bs(0x51, 0x51, 0x87), bs(0x51, 0xb1), bs(0x51, 0xb2), bs(0x01), bs(0x51, 0x75, 0x52)}
+	pick := func() *[]byte { return pool[r.Intn(len(pool))] }
+	idxs := []int{-1, -2147483648, -1 << 63, 0, 1, 2, 3, 1 << 31, 1<<63 - 1}
+	var specs []*optsSpec
+	rounds := 2
+	if c.Thorough() {
+		rounds = 12
 	}
-	prev := &bt.Output{Satoshis: 5, LockingScript: lock}
-	noScriptPrev := &bt.Output{Satoshis: 5}
-	type tc struct {
-		name string
-		opts []interpreter.ExecutionOptionFunc
-	}
-	var cases []tc
-	for _, idx := range []int{-1, -2147483648, 0, 1, 2, 3, 1 << 31, 1<<63 - 1} {
-		for nin := 0; nin <= 2; nin++ {
-			for _, po := range []*bt.Output{nil, prev, noScriptPrev} {
-				for _, withScripts := range []int{0, 1, 2, 3} {
-					opts := []interpreter.ExecutionOptionFunc{interpreter.WithTx(mk(nin), idx, po)}
-					switch withScripts {
-					case 1:
-						opts = append(opts, interpreter.WithScripts(lock, unlock))
-					case 2:
-						opts = append(opts, interpreter.WithScripts(nil, unlock))
-					case 3:
-						opts = append(opts, interpreter.WithScripts(lock, nil))
+	for round := 0; round < rounds; round++ {
+		for _, idx := range idxs {
+			for nin := -1; nin <= 3; nin++ {
+				for prevKind := 0; prevKind < 3; prevKind++ {
+					for scriptsKind := 0; scriptsKind < 5; scriptsKind++ {
+						o := &optsSpec{Idx: idx}
+						if nin >= 0 {
+							o.Tx = &txSpec{Lock: []uint32{0, 1, 500000000}[r.Intn(3)], Version: []uint32{1, 2}[r.Intn(2)]}
+							for i := 0; i < nin; i++ {
+								o.Tx.Ins = append(o.Tx.Ins, inSpec{Unlock: pick(), Seq: []uint32{0, 0xffffffff, 1 << 31}[r.Intn(3)]})
+							}
+						}
+						switch prevKind {
+						case 1:
+							o.Prev = &prevSpec{}
+						case 2:
+							o.Prev = &prevSpec{Lock: pick()}
+						}
+						switch scriptsKind {
+						case 0:
+							o.NoWithScripts = true
+						case 1:
+							o.Lock, o.Unlock = pick(), pick()
+						case 2:
+							o.Unlock = pick()
+						case 3:
+							o.Lock = pick()
+						case 4:
+							// matching what the transaction / previous output carry, when they do
+							o.Lock, o.Unlock = pick(), pick()
+							if o.Prev != nil && o.Prev.Lock != nil {
+								o.Lock = o.Prev.Lock
+							}
+							if o.Tx != nil && idx >= 0 && idx < len(o.Tx.Ins) && o.Tx.Ins[idx].Unlock != nil {
+								o.Unlock = o.Tx.Ins[idx].Unlock
+							}
+						}
+						specs = append(specs, o)
 					}
-					cases = append(cases, tc{fmt.Sprintf("tx(%d inputs) idx=%d prev=%v scripts=%d", nin, idx, po != nil, withScripts), opts})
 				}
 			}
 		}
-		cases = append(cases, tc{fmt.Sprintf("nil tx idx=%d", idx), []interpreter.ExecutionOptionFunc{interpreter.WithTx(nil, idx, nil)}})
-		cases = append(cases, tc{fmt.Sprintf("nil tx idx=%d +scripts", idx), []interpreter.ExecutionOptionFunc{interpreter.WithTx(nil, idx, nil), interpreter.WithScripts(lock, unlock)}})
-		cases = append(cases, tc{fmt.Sprintf("nil tx idx=%d prev", idx), []interpreter.ExecutionOptionFunc{interpreter.WithTx(nil, idx, prev)}})
 	}
-	cases = append(cases, tc{"no options", nil})
-	cases = append(cases, tc{"scripts nil/nil", []interpreter.ExecutionOptionFunc{interpreter.WithScripts(nil, nil)}})
-	for _, k := range cases {
-		for _, fl := range []uint32{0, 0xffff, interpgen.FGenesis | interpgen.FForkID, interpgen.FCLTV | interpgen.FCSV} {
-			for _, dbg := range []bool{false, true} {
-				opts := append(append([]interpreter.ExecutionOptionFunc{}, k.opts...), interpreter.WithFlags(scriptflag.Flag(fl)))
-				if dbg {
-					opts = append(opts, interpreter.WithDebugger(&interpgen.Recorder{}))
-				}
-				panicked, msg := common.Safely(func() { _ = interpreter.NewEngine().Execute(opts...) })
-				c.Tally(fmt.Sprintf("bad-context/panic=%v", panicked))
-				if panicked {
-					c.Violate("Engine.Execute/panic-on-arguments", msg, k.name+fmt.Sprintf(" flags=%#x debugger=%v", fl, dbg))
-				}
-				c.Case("", map[string]interface{}{"kind": "bad-context", "what": k.name, "flags": fl, "debugger": dbg}, "ctx/"+k.name+fmt.Sprint(fl, dbg), true)
-			}
+	specs = append(specs, &optsSpec{NoWithTx: true, NoWithScripts: true})
+	specs = append(specs, &optsSpec{NoWithTx: true})
+	for _, p := range pool {
+		for _, q := range pool {
+			specs = append(specs, &optsSpec{NoWithTx: true, Lock: p, Unlock: q})
 		}
+	}
+	for _, o := range specs {
+		o.Flags = []uint32{0, 0xffff, interpgen.FGenesis | interpgen.FForkID, interpgen.FCLTV | interpgen.FCSV, interpgen.FBip16 | interpgen.FCleanStack}[r.Intn(5)]
+		var err error
+		panicked, msg := common.Safely(func() { err = interpreter.NewEngine().Execute(o.build(nil)...) })
+		rec := &interpgen.Recorder{}
+		res := interpgen.RunBuilt(&interpgen.Built{Opts: o.build(rec)}, rec)
+		plain := "ok"
+		if err != nil {
+			plain = "err"
+		}
+		c.Tally("arguments/" + res.Obs)
+		if panicked || res.Obs == "panic" {
+			c.Violate("Engine.Execute/panic-on-arguments", msg+res.Err, o)
+		} else if plain != res.Obs {
+			c.Violate("Engine.Execute/verdict-differs-with-debugger", plain+" vs "+res.Obs, o)
+		}
+		bb, _ := json.Marshal(o)
+		c.Case(o.coq(res), map[string]interface{}{"kind": "arguments", "opts": o}, "args/"+string(bb), true)
 	}
 }
 
@@ -244,7 +361,7 @@ func runC07() {
 			}
 		}
 	}
-	c.Stats.Rule = "big-number operand sweep; 1200 signature-opcode shapes with a full transaction context (junk signatures/keys, code separators in either script, early OP_RETURN in the unlocking script; implementation only); arbitrary byte strings as unlocking/locking scripts, mutations (bit flip, truncate, splice, byte replace) of the node vectors, every opcode 0..255 with 0..3 arbitrary operands and arbitrary trailing bytes; 16-bit flag words; contexts {no tx, tx + previous output, tx without previous output}; plus 1 700 argument combinations validate() must reject (negative / too large index, nil tx, nil scripts, missing previous output) with and without a debugger. Programs with signature opcodes under a full tx context and P2SH under a full context run on the implementation only (go-only); everything else is also evaluated on the Coq model. After Genesis OP_NUM2BIN is replaced by OP_NOP (its target size is an attacker-chosen allocation up to 2^31-1 bytes: memory policy, out of scope). distinct = distinct (scripts, flags, context); non-trivial = all (every case exercises validation or execution)"
+	c.Stats.Rule = "big-number operand sweep; 1200 signature-opcode shapes with a full transaction context (junk signatures/keys, code separators in either script, early OP_RETURN in the unlocking script; implementation only); arbitrary byte strings as unlocking/locking scripts, mutations (bit flip, truncate, splice, byte replace) of the node vectors, every opcode 0..255 with 0..3 arbitrary operands and arbitrary trailing bytes; 16-bit flag words; contexts {no tx, tx + previous output, tx without previous output}; plus ~1 400 (thorough ~8 200) argument combinations of Engine.Execute (nil / empty / mismatching scripts, nil transaction, 0..3 inputs with or without their own unlocking script, nil or script-less previous output, input indices MinInt64..MaxInt64) run with and without a debugger on the implementation and through validate/apply of model/ExecOpts.v on the model. Programs with signature opcodes under a full tx context and P2SH under a full context run on the implementation only (go-only); everything else is also evaluated on the Coq model. After Genesis OP_NUM2BIN is replaced by OP_NOP (its target size is an attacker-chosen allocation up to 2^31-1 bytes: memory policy, out of scope). distinct = distinct (scripts, flags, context); non-trivial = all (every case exercises validation or execution)"
 }
 
 // neutralise replaces OP_NUM2BIN at opcode positions by OP_NOP.
